@@ -24,7 +24,7 @@ PROPS = {
     'C11': dict(title='default() builds the marked variant / struct', cfgs=STD_CFGS, bodies={'Default'}),
     'C12': dict(title='generated unsafe code is never UB; safe emits no unsafe', cfgs=['default', 'safe'], bodies=CMP),
     'C13': dict(title='feature flags change strategy, never results', cfgs=ALL_CFGS, bodies='all'),
-    'C14': dict(title='expansion independent of caller scope and naming', cfgs=ALL_CFGS, header=True, bodies='all', extra=True),
+    'C14': dict(title='expansion independent of caller scope and naming', cfgs=ALL_CFGS, header=True, bodies='all', extra=True, stage_a=True),
     'C15': dict(title='invalid attribute combinations are rejected', cfgs=ALL_CFGS, bodies=set(), status={'reject->accept'}),
     'C16': dict(title='failures are clean diagnostics: no panic, item stays defined', cfgs=ALL_CFGS, bodies=set(),
                 status={'panic'}, stage_a=True),
